@@ -85,6 +85,11 @@ type DataProp struct {
 type AddressData struct {
 	AllProp bool       `json:"allprop,omitempty"`
 	Props   []DataProp `json:"props,omitempty"`
+	// ContentType and Version are the attributes of RFC 6352 section 10.4
+	// naming the media type of the returned data; nil = attribute absent
+	// (defaults "text/vcard" and "3.0").
+	ContentType *string `json:"content_type,omitempty"`
+	Version     *string `json:"version,omitempty"`
 }
 
 // QName is an expanded element name.
@@ -136,6 +141,19 @@ func (m *MultiGet) Paths() ([]string, error) {
 type Request struct {
 	Query    *Query    `json:"query,omitempty"`
 	MultiGet *MultiGet `json:"multiget,omitempty"`
+}
+
+// Sel returns the request's property selection (nil for an empty request).
+func (r *Request) Sel() *Selection {
+	switch {
+	case r == nil:
+		return nil
+	case r.Query != nil:
+		return &r.Query.Sel
+	case r.MultiGet != nil:
+		return &r.MultiGet.Sel
+	}
+	return nil
 }
 
 // Violation is one place where a document departs from the RFC 6352 grammar
@@ -322,6 +340,12 @@ func (r *reader) addressData(n *xmltree.Node) *AddressData {
 	// content-type and version select the media type of the returned data
 	r.attrs(n, where, "content-type", "version")
 	ad := &AddressData{}
+	if v, ok := n.Attr("content-type"); ok {
+		ad.ContentType = &v
+	}
+	if v, ok := n.Attr("version"); ok {
+		ad.Version = &v
+	}
 	for _, c := range r.kids(n, where) {
 		switch {
 		case c.Is(NS, "allprop"):
@@ -523,7 +547,7 @@ func (r *reader) limit(n *xmltree.Node, q *Query) {
 			}
 		}
 		q.NResults = strings.Trim(c.TextContent(), " \t\r\n")
-		if _, ok := PositiveInt(q.NResults); !ok {
+		if !IsPositiveInteger(q.NResults) {
 			r.bad("nresults", "bad-value", "not-a-positive-integer", fmt.Sprintf("%q", c.TextContent()))
 		}
 	}
@@ -532,20 +556,34 @@ func (r *reader) limit(n *xmltree.Node, q *Query) {
 	}
 }
 
+// IsPositiveInteger is the grammar of nresults: a string of ASCII digits
+// denoting an integer >= 1, of any size.
+func IsPositiveInteger(s string) bool {
+	nonZero := false
+	for i := 0; i < len(s); i++ {
+		if s[i] < '0' || s[i] > '9' {
+			return false
+		}
+		nonZero = nonZero || s[i] != '0'
+	}
+	return nonZero
+}
+
 // PositiveInt reads a string of ASCII digits denoting an integer >= 1 that
-// fits in 62 bits.
+// fits in an int64.
 func PositiveInt(s string) (int64, bool) {
-	if s == "" || len(s) > 18 {
+	if !IsPositiveInteger(s) {
 		return 0, false
 	}
 	var v int64
 	for i := 0; i < len(s); i++ {
-		if s[i] < '0' || s[i] > '9' {
+		d := int64(s[i] - '0')
+		if v > (1<<63-1-d)/10 {
 			return 0, false
 		}
-		v = v*10 + int64(s[i]-'0')
+		v = v*10 + d
 	}
-	return v, v >= 1
+	return v, true
 }
 
 func (r *reader) multiget(root *xmltree.Node) *MultiGet {
